@@ -20,6 +20,7 @@ const (
 	vfEvChunksEnd          // all chunks of an inbound packet have been handled
 	vfEvGatherEnd          // gatherOutbound is about to return
 	vfEvTimerEnd           // a retransmission timer callback is about to return
+	vfEvMiss3              // a chunk has just received its third miss indication (loss detected by SACKs)
 )
 
 // yield sites.
